@@ -143,6 +143,9 @@ func specRel(opts []layers.TCPOption, a int, o int, isn uint32) uint32 {
 //@ requires[pre.nonnil]     s != nil && s.source != nil && s.parser != nil && s.parser.parserv4 != nil && s.parser.parserv6 != nil
 //@ requires[C10.hs.open]    selb(isOpen, ref(s.source))
 //@ ensures[C20.hs.done]     ret0 == nil ==> s.state != nil
+// one absolute deadline for the whole handshake read (not re-armed per packet: unrelated traffic cannot extend it)
+//@ ensures[C08.hs.deadline.once] ncalls(Source.SetReadDeadline) == old(ncalls(Source.SetReadDeadline)) + 1
+//@ loop 1 invariant[C08.deadline.once] ncalls(Source.SetReadDeadline) == old(ncalls(Source.SetReadDeadline)) + 1
 //@ ensures[C20.hs.class]    ret0 != nil && chain(ret0, *NotSupportedError) ==> ncalls("(*sackDriver).handleHandshake") > old(ncalls("(*sackDriver).handleHandshake")) && chain(lastres("(*sackDriver).handleHandshake", 0), *NotSupportedError)
 //@ modifies *, ghost clock, ghost ioFail
 //@ loop 1 invariant[calls] ncalls("(*sackDriver).handleHandshake") >= old(ncalls("(*sackDriver).handleHandshake"))
